@@ -155,6 +155,9 @@ for ch in ("A", "W"):
            inlined=["uriContainsUppercaseLetters" + ch, "uriContainsUglyPercentEncoding" + ch, "uriHexdigToInt" + ch, "uriIsUnreserved"],
            stubs=["memcpy (one whole Uri structure, structure assignment)"], kf=NORM_KF, timeout_s=by_tier(900, 3600), mem_gb=8)
         for owned in ((0, 1) if ch == "A" else ()):     # W instances exceed the memory budget at these bounds (DESIGN "W pass")
+            if owned and nm == "path":
+                vl = 2      # the owned/path instance does not fit into memory with 3-character segments (percent-encodings in
+                            # segments are covered by the borrowed/path instance: the in-place and the copying repair share one engine)
             ob(id="NormalizeSyntax.%s.%s.%s.H" % ("owned" if owned else "borrowed", nm, ch),
                props=["C08", "C09", "C07", "C12", "C13", "C14", "C19", "C20"], route="H", harness="c08_normalize.c", char=ch,
                group="uriNormalizeSyntaxExMm whole operation against the RFC 3986 6.2.2 normal form, ownership, ledger, fault injection",
@@ -270,6 +273,17 @@ for ch in ("A", "W"):
        functions=["uriOnExitOwnHost2" + ch, "uriOnExitOwnHostUserInfo" + ch, "uriOnExitOwnPortUserInfo" + ch],
        inlined=["uriParseIpFourAddress" + ch], stubs=["memory manager (ledger stub)"], timeout_s=900, mem_gb=10)
 
+for ch in ("A",):
+    for (tier, k) in ((Q, 14), (T, 18)):
+        ob(id="ParseIPv6address2.v4tail.K%d.%s.H" % (k, ch), props=["C01", "C02", "C03", "C19"], route="H", harness="c02_ip6.c", char=ch, tier=tier,
+           quick_only=(tier == Q),
+           group="uriParseIPv6address2 == RFC 3986 IPv6address recogniser on the slice '::' + digits/dots/']' (embedded IPv4 tail) - bounded stand-in",
+           defines={"V_K": k, "SPEC_IP6_MAX": k, "V_IP6_MODE": 1},
+           unwindset={"uriParseIPv6address2%s.0" % ch: k + 1, "uriParseIPv6address2%s.1" % ch: 6, "uriParseIPv6address2%s.2" % ch: 3,
+                      "uriFreeUriMembersMm%s.*" % ch: 2},
+           level="B", bounds="literals '::' + at most %d characters from [0-9.]] (including the closing bracket)" % (k - 2),
+           functions=["uriParseIPv6address2" + ch], inlined=["uriStopSyntax" + ch, "uriFreeUriMembersMm" + ch, "uriWriteQuadToDoubleByte", "uriGetOctetValue"],
+           stubs=["memory manager (ledger stub)", "memcpy/memset: CBMC models"], timeout_s=3000, mem_gb=16)
 for ch in ("A",):        # the W instance exceeds the memory budget; the scanner is compiled from the same text
     for (tier, k) in ((Q, 8), (T, 12)):
         ob(id="ParseIPv6address2.K%d.%s.H" % (k, ch), props=["C01", "C02", "C03", "C19"], route="H", harness="c02_ip6.c", char=ch, tier=tier,
@@ -404,9 +418,9 @@ ob(id="lemma.grammar-equals-rfc", props=["C01", "C02"], route="L", harness="", c
 # keeps the obligations that decide *its* clauses most directly.
 import re as _re
 QUICK = {
-    "C01": [r"^lemma\.grammar", r"^Dispatch\..*\.A\.D$", r"^Parse(Single)?UriExMm\.A", r"^ParseIpFourAddress\.A", r"^ParseIPv6address2\.K8\.A", r"^OnExitHost\.A"],
+    "C01": [r"^lemma\.grammar", r"^Dispatch\..*\.A\.D$", r"^Parse(Single)?UriExMm\.A", r"^ParseIpFourAddress\.A", r"^ParseIPv6address2\.", r"^OnExitHost\.A"],
     "C02": [r"^lemma\.grammar", r"^OnExitHost\.A", r"^PushPathSegment\.A", r"^FixEmptyTrailSegment\.A", r"^ParseIpFourAddress\.A", r"^Dispatch\.Parse(Authority|OwnHost2|UriReference|UriTail|PartHelperTwo)\.A"],
-    "C03": [r"^Parse[A-Za-z0-9]+\.A\.D$", r"^(FreeUriMembersMm|StopSyntaxMalloc|PushPathSegment)\.A", r"^ParseIpFourAddress\.A"],
+    "C03": [r"^Parse[A-Za-z0-9]+\.A\.D$", r"^(FreeUriMembersMm|StopSyntaxMalloc|PushPathSegment)\.A", r"^ParseIpFourAddress\.A", r"^ParseIPv6address2\.K8\.A"],
     "C04": [r"^ToString\.content\..*\.A"],
     "C05": [r"^ToString\.cap\."],
     "C06": [r"^AddBaseUri\.A"],
@@ -415,9 +429,9 @@ QUICK = {
     "C09": [r"^NormalizeSyntax\.(borrowed|owned)\.(path|all-short)\.A"],
     "C10": [r"^RemoveBaseUri\."],
     "C11": [r"."],
-    "C12": [r"^MakeOwner\.", r"^EqualsUri\.A", r"^ToString\.cap\.regname\.A", r"^NormalizeMaskRequired\.authority\.A"],
+    "C12": [r"^MakeOwner\.", r"^NormalizeSyntax\.borrowed\.authority\.A", r"^EqualsUri\.A", r"^ToString\.cap\.regname\.A", r"^NormalizeMaskRequired\.authority\.A"],
     "C13": [r"^static\.", r"^FreeUriMembersMm\.A", r"^MakeOwner\.A", r"^DissectQuery\.A", r"^uriMemoryManagerIsComplete", r"^AppendQueryItem\.A"],
-    "C14": [r"^MakeOwner\.A", r"^DissectQuery\.A", r"^AppendQueryItem\.A", r"^StopSyntaxMalloc\.A", r"^PushPathSegment\.A", r"^RemoveBaseUri\.A", r"^NormalizeSyntax\.borrowed\.path\.A"],
+    "C14": [r"^AddBaseUri\.A", r"^MakeOwner\.A", r"^DissectQuery\.A", r"^AppendQueryItem\.A", r"^StopSyntaxMalloc\.A", r"^PushPathSegment\.A", r"^RemoveBaseUri\.A", r"^NormalizeSyntax\.borrowed\.path\.A"],
     "C15": [r"."],
     "C16": [r"^EscapeEx\.A\.N", r"^UnescapeInPlaceEx\.A\.N", r"^EscapeEx\.corner", r"Content\.", r"^EscapeRoundTrip\."],
     "C17": [r"^DissectQuery\.", r"^AppendQueryItem\.A", r"^ComposeQuery\."],
